@@ -183,7 +183,17 @@ class World:
 
     def sent_messages(self, sock=None):
         """reference-decoded whole messages written so far (a torn tail is left out)"""
-        return rc.dec_stream(self.sent_bytes(sock), strict_tail=False)
+        # used inside wait predicates (evaluated at every scheduling step): decode again only when more bytes were written
+        sock = sock or self.sock
+        if sock is None:
+            return []
+        key = (id(sock), len(sock.outbox))
+        memo = self.__dict__.setdefault("_sent_memo", {})
+        if memo.get("key") != key:
+            memo["key"] = None
+            memo["val"] = rc.dec_stream(bytes(sock.outbox), strict_tail=False)
+            memo["key"] = key
+        return list(memo["val"])
 
     def state(self):
         return self.d.get_current_state()
